@@ -48,7 +48,7 @@ class TaskShadow:
                  "start_time", "finish_time", "cancel_time", "strategy", "runtime", "worker",
                  "pool", "starts", "finishes", "placements", "released_obs", "deadline",
                  "chosen_time", "variance", "direct_changes", "first_release", "sched_count",
-                 "removed_time", "deferred")
+                 "removed_time", "deferred", "ever_deferred")
 
     def __init__(self, task):
         self.task = task
@@ -78,6 +78,7 @@ class TaskShadow:
         self.sched_count = 0
         self.removed_time = None
         self.deferred = False
+        self.ever_deferred = False
 
 
 def _us(t):
@@ -653,6 +654,7 @@ def on_boundary(ctx):
                         f"(state {s.state})", {"state": s.state})
         if not started_now:
             s.deferred = True
+            s.ever_deferred = True
             if pp["fits"] is False:
                 ctx.fault("worker_not_ready_justified")
             elif pp["ready"] is False:
